@@ -232,6 +232,11 @@ def generate(rng, max_ops=200, live_limit=256 * 1024, profile=None):
         elif name == "CHURN":
             x = rng.choice([1, 10, 100, 1000]) if profile != "churn" else rng.choice([100, 1000, 3000])
             y = rng.choice([0, 1, 8, 32, 128]) if profile != "churn" else rng.choice([0, 8, 64])
+            if big and rng.random() < 0.5:
+                # short-lived large objects (large-object space): sizes that are not multiples of
+                # the 64 KiB page, many of them
+                x = rng.choice([50, 300, 1500])
+                y = rng.choice([4100, 5000, 8800, 12345, 20000])
         elif name == "STR":
             y = rng.choice([0, 1, 5, 40, 120])
         elif name == "DEEP":
